@@ -141,10 +141,11 @@ PROPS = {
         kani=dict(sweep_only=['cn::cn_mul_w65', 'cn::cn_mul_w128', 'cn::cn_mul_w192', 'cn::cn_mul_w250', 'cn::cn_mul_w320'], 
             features=None,
             quick=["c02::c02_inv_ring_cond_w0", "c02::c02_inv_ring_w1", "c02::c02_inv_ring_w8", "c02::c02_product_w8", "c02::c02_mulc_zero_w128", "c02::c02_mulc_zero_w65", "c02::c02_mulc_zero_w192"],
-            thorough=["c02::c02_inv_ring_cond_w0", "c02::c02_inv_ring_w1", "c02::c02_inv_ring_w8", "c02::c02_inv_ring_w16", "c02::c02_product_w8", "c02::c02_mulc_zero_w128", "c02::c02_mulc_zero_w65", "c02::c02_mulc_zero_w192", "c02::c02_mul_grid_w128", "c02::c02_mul_grid_w127", "c02::c02_mul_grid_w192"],
+            thorough=["c02::c02_inv_ring_cond_w0", "c02::c02_inv_ring_w1", "c02::c02_inv_ring_w8", "c02::c02_inv_ring_w16", "c02::c02_product_w8", "c02::c02_mulc_zero_w128", "c02::c02_mulc_zero_w65", "c02::c02_mulc_zero_w192"],
             native_quick=["c02::c02_mul_grid_w128", "c02::c02_mul_grid_w127", "c02::c02_mul_grid_w192"],
+            native_thorough=["c02::c02_mul_grid_w128", "c02::c02_mul_grid_w127", "c02::c02_mul_grid_w192"],
             timeout_thorough=3000,
-            bounds="inv_ring: BITS in {0,1,8,16} all values; Product: <= 2 elements at 8 bits; c02_mul_grid_*: every pair of operands with limbs from {0,1,MAX} at 127/128 bits, {1,MAX} at 192 bits, CONCRETE (BOUNDED; about 520 s each under CBMC: thorough tier; executed natively in the quick tier)",
+            bounds="inv_ring: BITS in {0,1,8,16} all values; Product: <= 2 elements at 8 bits; c02_mul_grid_*: every pair of operands with limbs from {0,1,MAX} at 127/128 bits, {1,MAX} at 192 bits, CONCRETE (BOUNDED; 520 s each under CBMC at 127/128 bits and no result in 14 min at 192 bits: executed natively in both tiers, not under Kani)",
         ),
         explanation="the property's sentences about products are postconditions of the Uint methods over val(); every function between them and the u128 multiply is under contract",
         trusted=COMMON_TRUST,
